@@ -515,7 +515,7 @@ func runSitu(c *ctx, monitor string, cfgNames []string) []procOut {
 		return nil
 	})
 	rep := filepath.Join(c.scratch, "out", "instr-situ.json")
-	if out, err := run("", nil, filepath.Join(verifDir, "bin", "vinstr"), "-root", voi2, "-mode", "wrap", "-wrap", strings.Join(wrapTargets, ","), "-report", rep); err != nil {
+	if out, err := run("", nil, filepath.Join(verifDir, "bin", "vinstr"), "-root", voi2, "-mode", "tick,wrap", "-wrap", strings.Join(wrapTargets, ","), "-report", rep); err != nil {
 		return fail("vinstr: " + out)
 	}
 	if b, err := os.ReadFile(rep); err == nil {
